@@ -108,7 +108,8 @@ CLAIMED["C12"] = dict(
          "group file, and the model's group text, read-back, identities and selections. Source tie (T): `PathsManager._get_to`, `_get_from` and "
          "`_find_one` — with their loops over the (identity, csvpath) pairs — are translated from /repo's working tree on every run and proved to compute "
          "the model's getTo/getFrom/findOne for every group and identity (Props/SelectTie; c12_select_source states the selection clause of the "
-         "translated source).",
+         "translated source). `CsvPath.identity` is translated as well and proved to compute the model's identityOf for every list of metadata fields "
+         "(Props/IdentityTie).",
     note="Identities come from the metadata model (C15) with Python's character classes supplied per character; SHA-256 is outside the model.",
     technique="Lean 4 proof (string split/join round trip, list lemmas) + source translator with bridging theorems (_get_to, _get_from, _find_one incl. their loops) + correspondence over operation histories",
     design="6/C12",
